@@ -4,6 +4,7 @@ package keyper
 
 import (
 	"context"
+	"time"
 
 	"github.com/jackc/pgx/v4/pgxpool"
 
@@ -36,4 +37,13 @@ func VerifNewEonPubKeyHandler(
 // QueryAndHandle runs one polling tick.
 func (v *VerifEonPubKeyHandler) QueryAndHandle(ctx context.Context) error {
 	return v.h.queryAndHandleNewEonPubKeys(ctx)
+}
+
+// RunLoop runs the polling loop itself (what Start hands to the service runner), polling every interval instead
+// of every eonPubkeyTickerTime, until ctx ends.
+func (v *VerifEonPubKeyHandler) RunLoop(ctx context.Context, interval time.Duration) error {
+	old := eonPubkeyTickerTime
+	eonPubkeyTickerTime = interval
+	defer func() { eonPubkeyTickerTime = old }()
+	return v.h.loop(ctx)
 }
